@@ -12,7 +12,6 @@ import posixpath
 import re
 from collections import Counter
 
-from vf import env
 from vf.core import Collector, derive_seed, exc_bucket, guarded, hyp_search, jhash
 from vf.gen import trees
 
